@@ -258,6 +258,27 @@ def check_verdict(case, ctx):
                   f"ineq verdict {v_in} but defect in [{in_lo:.3e},{in_hi:.3e}] at atol={a_in:.3e}")
     ctx.check(bool(v_ph) == (bool(v_eq) and bool(v_in)), f"is_physical_conjunction:{t}",
               f"is_physical={v_ph} eq={v_eq} ineq={v_in}")
+    # each tolerance defaults to the GLOBAL setting independently of the other one (atol is the only slack):
+    # is_physical(a) = eq at a AND ineq at the global atol; is_physical(atol_ineq_const=b) = eq at global AND ineq at b
+    g = 1e-13
+    v_eq_g, v_in_g = q.is_eq_constraint_satisfied(), q.is_ineq_constraint_satisfied()
+    ph_eq_only = q.is_physical(a_eq)
+    ph_in_only = q.is_physical(atol_ineq_const=a_in)
+    ph_none = q.is_physical()
+    ctx.check(bool(ph_eq_only) == (bool(v_eq) and bool(v_in_g)), f"is_physical_default_ineq_tolerance:{t}",
+              f"is_physical({a_eq:.3e})={ph_eq_only} but eq@{a_eq:.1e}={v_eq}, ineq@global={v_in_g}")
+    ctx.check(bool(ph_in_only) == (bool(v_eq_g) and bool(v_in)), f"is_physical_default_eq_tolerance:{t}",
+              f"is_physical(atol_ineq_const={a_in:.3e})={ph_in_only} but eq@global={v_eq_g}, ineq@{a_in:.1e}={v_in}")
+    ctx.check(bool(ph_none) == (bool(v_eq_g) and bool(v_in_g)), f"is_physical_default_both:{t}")
+    # and against the independent model where the margins allow
+    e_eq_g = expected(eq_lo, eq_hi + noise, g)
+    e_in_g = expected(in_lo, in_hi + noise, g)
+    if e_eq is not None and e_in_g is not None:
+        ctx.check(bool(ph_eq_only) == (e_eq and e_in_g), f"is_physical_one_tolerance_vs_model:{t}",
+                  f"is_physical({a_eq:.3e})={ph_eq_only}; eq defect {eq_hi:.3e}, ineq defect {in_hi:.3e} (ineq judged at the global 1e-13)")
+    if e_eq_g is not None and e_in is not None:
+        ctx.check(bool(ph_in_only) == (e_eq_g and e_in), f"is_physical_one_tolerance_vs_model:{t}",
+                  f"is_physical(atol_ineq_const={a_in:.3e})={ph_in_only}; eq defect {eq_hi:.3e} (judged at 1e-13), ineq defect {in_hi:.3e}")
 
     near = False
     for lo, hi, a in ((eq_lo, eq_hi, a_eq), (in_lo, in_hi, a_in)):
